@@ -322,6 +322,13 @@ def wiring_cases(ctx, mon, numqi, n, part=0, nparts=1, exhaustive=True, ncases=0
             q0 = rq.rand_state(rng, 2**n, real=(kind == 'real' and rng.random() < 0.5))
             if rng.random() < 0.2:
                 q0 = q0 * 3.7  # un-normalised vectors are admissible inputs of a linear map
+            u = rng.random()
+            if u < 0.15:
+                q0 = np.ascontiguousarray(q0.real)  # a real-dtype state is a state: a complex gate must give a complex result
+            elif u < 0.3:
+                buf = np.zeros(2 * q0.size, dtype=q0.dtype)  # non-contiguous view
+                buf[::2] = q0
+                q0 = buf[::2]
             ctx.set_case({'op': 'wiring', 'n': n, 'targets': tg, 'controls': cs, 'operator': kind})
             nontrivial = (k < n or len(cs) > 0 or n == 1)
             ctx.case('wiring', n, tg, cs, kind, nontrivial=nontrivial,
@@ -347,8 +354,11 @@ def run_dm(ctx, mon, numqi):
             k = len(tg)
             for kind, op in _operators(rng, k, small=True):
                 rho = rq.rand_dm(rng, 2**n, rank=int(rng.integers(1, 2**n + 1)))
-                for form in _index_forms(rng, tg):
-                    ctx.set_case({'op': 'dm', 'n': n, 'targets': tg, 'operator': kind, 'index_type': type(form).__name__})
+                for fi, form in enumerate(_index_forms(rng, tg)):
+                    # memory layouts: C-ordered, Fortran-ordered copy, transposed-conjugate view (the same Hermitian matrix), real dtype
+                    rho = [rho, np.asfortranarray(rho), rho.conj().T, rho][fi % 4]
+                    ctx.set_case({'op': 'dm', 'n': n, 'targets': tg, 'operator': kind, 'index_type': type(form).__name__,
+                                  'layout': ['C', 'F', 'conj-transpose-view', 'C'][fi % 4]})
                     ctx.case('dm', n, tg, kind, type(form).__name__, nontrivial=(k < n or n == 1))
                     with ctx.guard('dm.apply_gate'):
                         D.apply_gate(rho, op, form)
@@ -366,6 +376,17 @@ def run_dm(ctx, mon, numqi):
         with ctx.guard('dm.apply_gate'):
             D.apply_gate(rho, op, list(tg))
             D.operator_expectation(rho, op, tuple(tg))
+    # chains: the output of one dm.apply_gate (whatever memory layout the library returns) is the input of the next
+    for _ in range(30 if ctx.tier == 'quick' else 200):
+        n = int(rng.integers(2, 5))
+        rho = rq.rand_dm(rng, 2**n)
+        ctx.set_case({'op': 'dm-chain', 'n': n})
+        ctx.case('dm-chain', rho)
+        with ctx.guard('dm.apply_gate'):
+            for step in range(4):
+                k = int(rng.integers(1, min(n, 3) + 1))
+                tg = tuple(range(k)) if step % 2 == 0 else tuple(int(x) for x in rng.permutation(n)[:k])
+                rho = D.apply_gate(rho, rq.haar_unitary(rng, 2**k), tg)
     # base state helper
     with ctx.guard('dm.new_base'):
         b = D.new_base(3)
